@@ -200,24 +200,39 @@ type Replay struct {
 	Par      *ParReplay `json:"par,omitempty"`
 }
 
-// ParReplay is the engine-B part of a replay (goroutine scripts and schedule).
+// ParReplay is the engine-B part of a replay: segments of engine-A ops, each
+// followed by a round of simulated goroutines.
 type ParReplay struct {
-	Scripts  [][]ParStep `json:"scripts"`
+	Segments []ParSegment `json:"segments"`
+}
+
+// ParSegment is a list of world-building ops followed by one round.
+type ParSegment struct {
+	Ops   []Op      `json:"ops"`
+	Round *ParRound `json:"round,omitempty"`
+}
+
+// ParRound describes one round of simulated goroutines.
+type ParRound struct {
 	Filters  []ParFilter `json:"filters"`
-	Schedule []int       `json:"schedule"`
-	GCAt     []int       `json:"gc_at,omitempty"`
+	Scripts  [][]ParStep `json:"scripts"`
+	Seed     uint64      `json:"seed"`
+	Stay     int         `json:"stay"`
+	Schedule []int16     `json:"schedule,omitempty"`
 }
 
 // ParStep is one step of a goroutine script.
 type ParStep struct {
-	K string `json:"k"` // query, count, entityat, next, get, close
-	F int    `json:"f,omitempty"`
-	N int    `json:"n,omitempty"`
+	K   string `json:"k"`             // query, count, entityat, next, close, gc
+	F   int    `json:"f,omitempty"`   // filter index (query)
+	Tgt int    `json:"tgt,omitempty"` // relation partition: target entity index, -2 = none
+	N   int    `json:"n,omitempty"`   // steps / index
+	Wr  bool   `json:"wr,omitempty"`  // write through Get pointers (own partition only)
 }
 
 // ParFilter describes a filter used by engine B.
 type ParFilter struct {
 	Spec   FilterSpec `json:"spec"`
 	Cached bool       `json:"cached,omitempty"`
-	Shared bool       `json:"shared,omitempty"`
+	Owner  int        `json:"owner"` // -1 = shared by all goroutines, else private to that goroutine
 }
